@@ -24,6 +24,9 @@ class ConcreteCtx(object):
     def witness(self, tag):
         pass
 
+    def assume(self, cond):
+        pass
+
 
 class ByteBits(object):
     def __init__(self, data):
